@@ -123,6 +123,11 @@ def _build(rng):
     esc = family == "general" or rng.random() < 0.3
     strings = [_string(rng, entries, escapes=esc) for _ in range(5)]
     mode = rng.choice(["api", "api", "program", "program", "program-sibling-only", "program-expansions"])
+    if mode == "api" and family == "general" and rng.random() < 0.3 and all(e[0] != "\n" for e in entries):
+        # a table may have an entry for the line break (written backslash + n in the file): a real line break in a string passed to
+        # the codec takes its code
+        entries.append(["\n", bytes([0x80 + len(entries) % 0x70, 0x0A, rng.randrange(256)]).hex()])
+        strings = [s_[: len(s_) // 2] + "\n" + s_[len(s_) // 2:] if i % 2 == 0 else s_ for i, s_ in enumerate(strings)]
     if rng.random() < 0.5 and entries:
         # make sure the last entry of the file is used (the file may end without a line terminator)
         strings[0] = strings[0] + entries[-1][0] + ("n" if entries[-1][0].endswith("\\") else "")
